@@ -29,7 +29,10 @@ RULE = ('valid corpus = generated fragments and rules + all 731 shipped '
         '(function entries + jumps inside pgradd.RINGParser / RDkitWrapper).'
         ' '
         'Round 17: ~60 valid, truncated and mutated texts read from four'
-        ' threads at once, outcome equal to the lone read.')
+        ' threads at once, outcome equal to the lone read.'
+        ' '
+        'Round 20: numerals of 640-1000 digits; one worker lowers'
+        ' sys.set_int_max_str_digits after import.')
 ASSUMPTIONS = [
     'the step budget is >= 10x the largest count seen on valid input of the '
     'same length (calibration reported as max_steps_per_char)',
